@@ -10,6 +10,10 @@ import time
 
 from . import REPO, VENV_PY, VERIF, extract
 
+# evidence/ and replays/ are written under /verif; tools/try_seed.sh redirects them so that runs against a seeded
+# scratch copy never overwrite the evidence of the real tree
+OUT = os.environ.get("VERIF_OUT") or VERIF
+
 EXIT_OK, EXIT_VIOLATION, EXIT_UNDECIDED, EXIT_CRASH = 0, 1, 2, 3
 
 
@@ -130,6 +134,94 @@ def run_g1(ctx, names, registry_modules=ALL_CONTRACTS):
 
 
 # ---------------------------------------------------------------------------------------- replay
+# ---------------------------------------------------------------------------------------- G2
+G2_SCALES = {"quick": [2.9e-13, 1e-3, 977.0, 4.1e9], "thorough": [2.9e-13, 7e-7, 1e-3, 1.0 / 3, 977.0, 12345.678, 1e6, 4.1e9]}
+
+
+def homog_request(ctx, c, n):
+    fn = extract.get_function(c.name)
+    sig = extract.numba_signature(fn.node)
+    params = [a.arg for a in fn.node.args.args]
+    def inst(spec):  # a polymorphic dimension variable is replayed at T
+        if isinstance(spec, str):
+            for p in c.poly:
+                spec = "log:T" if spec == "log:" + p else "T" if spec == p else spec
+            return spec
+        return [inst(x) if not isinstance(x, int) else x for x in spec]
+    return {"function": c.name, "params": params, "types": [list(t) for t in sig[1]],
+            "dims": {k: inst(v) for k, v in c.params.items()}, "returns": inst(c.returns), "gen": c.gen, "seed": ctx.seed, "n": n, "scales": G2_SCALES[ctx.tier],
+            "axes": ["T"], "rtol": 1e-6}
+
+
+def run_g2(ctx, names=None, homogeneity=True):
+    """Dimensional contracts: type-check the real source (proof), then replay homogeneity on the real function."""
+    import contracts.dims  # noqa: F401
+    from . import dim
+    names = names or [n for n, c in dim.DIM_REGISTRY.items() if ctx.pid in c.props]
+    pending = []
+    for name in names:
+        c = dim.DIM_REGISTRY[name]
+        try:
+            res = dim.check(c)
+        except (LookupError, FileNotFoundError) as e:
+            ctx.obs.append(Ob(f"{name}:attach", "G2", "attach", "does-not-attach", reason=str(e), func=name))
+            continue
+        ctx.functions.append({**res.fn.describe(), "mode": "dimension (T, L) type check, real arithmetic",
+                              "paths": 1, "loops_with_invariant": []})
+        if res.error:
+            ctx.obs.append(Ob(f"{name}:attach", "G2", "attach", "does-not-attach", reason=res.error, func=name))
+        elif not res.obligations:
+            ctx.obs.append(Ob(f"{name}:no-obligations", "G2", "vacuity", "unknown",
+                              reason="zero obligations generated", func=name))
+        refuted = []
+        for o in res.obligations:
+            ob = Ob(o["name"], "G2", "dim-" + o["kind"], o["verdict"], backend="z3 linear real arithmetic (incremental)",
+                    solver_s=res.solver_s / max(len(res.obligations), 1), clause=o["text"], func=name, line=o["line"],
+                    reason="" if o["verdict"] == "proved" else
+                    "the dimensions of the operands cannot be made equal: this operation is not invariant under a "
+                    "change of units, given the dimensions the contract assigns to the parameters")
+            ctx.obs.append(ob)
+            if o["verdict"] == "refuted":
+                refuted.append(ob)
+        for a in res.assumed_callees:
+            ctx.add_assumption(f"A-DIM-CALLEE: {a} takes and returns pure numbers (dimensional contract assumed, body not checked)")
+        for k, why in c.strong.items():
+            ctx.add_assumption(f"A-DIM-FLOW: {name}: local '{k}' is re-typed flow-sensitively -- {why}")
+        if c.notes:
+            ctx.notes.append(f"{name}: {c.notes}")
+        if c.gen and (homogeneity or refuted):
+            pending.append((c, refuted))
+    if not pending:
+        return
+    n = 60 if ctx.tier == "quick" else 600
+    batch = venv_run("rt.homog", {"batch": [homog_request(ctx, c, n) for c, _ in pending]}, timeout=1800)
+    for c, refuted in pending:
+        name = c.name
+        r = batch.get("batch", {}).get(name) or {"error": batch.get("error", "no result")}
+        fails = r.get("failures") or []
+        if "error" in r:
+            ctx.obs.append(Ob(f"{name}:homogeneity-replay", "G4", "bounded", "unknown", reason=r["error"], func=name))
+            continue
+        hob = Ob(f"{name}:homogeneity-replay", "G4", "bounded", "bounded-fail" if fails else "bounded-pass",
+                 backend="cpython/numpy on the real function", func=name,
+                 clause=f"f(c^dim x) == c^dim f(x) on {r['cases']} generated inputs ({r['returned_normally']} "
+                        f"returning normally) x scales {r['scales']}")
+        if fails:
+            hob.replay = {"reproduced": True, "origin": "generator", "case": fails[0]}
+            hob.reason = (f"scale {fails[0]['scale']}: {str(fails[0]['scaled'])[:120]} vs unscaled "
+                          f"{str(fails[0]['unscaled'])[:120]}")
+            for ob in refuted:
+                ob.replay = {"reproduced": True, "origin": "generator (homogeneity replay)", "case": fails[0]}
+        else:
+            for ob in refuted:
+                ob.replay = {"reproduced": False, "tried": r["cases"], "scales": r["scales"]}
+        ctx.obs.append(hob)
+        ctx.bounded_parts.append({"contract": name + " (homogeneity replay)",
+                                  "space": f"generator {c.gen} (rt/homog.py, rt/gens.py), seed {ctx.seed}, scales {r['scales']}",
+                                  "evaluations": r["cases"] * (len(r["scales"]) + 1), "valid": r["returned_normally"],
+                                  "exhaustive": False})
+
+
 def venv_run(module, request, timeout=600, jit=False):
     with tempfile.NamedTemporaryFile("w", suffix=".json", delete=False) as f:
         json.dump(request, f)
@@ -291,7 +383,7 @@ def match_known(pid, ob, known):
 def finish(ctx, plan, t0):
     known = load_known()
     violations, unknowns, known_hits = [], [], []
-    os.makedirs(os.path.join(VERIF, "replays", ctx.pid), exist_ok=True)
+    os.makedirs(os.path.join(OUT, "replays", ctx.pid), exist_ok=True)
     for ob in ctx.obs:
         if ob.verdict in FAILED:
             k = match_known(ctx.pid, ob, known)
@@ -311,7 +403,7 @@ def finish(ctx, plan, t0):
     for ob, k in known_hits:
         lines.append(f"KNOWN-FINDING: property={ctx.pid} {k['text']} [{ob.name}]")
     for n, ob in enumerate(violations):
-        rp = os.path.join(VERIF, "replays", ctx.pid, f"violation_{n}.json")
+        rp = os.path.join(OUT, "replays", ctx.pid, f"violation_{n}.json")
         reproduced = bool(ob.replay and ob.replay.get("reproduced"))
         with open(rp, "w") as f:
             json.dump({"property": ctx.pid, "obligation": ob.name, "generator": ob.generator, "kind": ob.kind,
@@ -319,7 +411,7 @@ def finish(ctx, plan, t0):
                        "backend": ob.backend, "solver_reason": ob.reason, "counter_model": ob.model,
                        "replay_on_real_code": ob.replay, "detail": ob.detail,
                        "smt2": (ob.smt2[:20000] if ob.smt2 else None)}, f, indent=1, default=str)
-        rel = os.path.relpath(rp, VERIF)
+        rel = os.path.relpath(rp, OUT)
         lines.append(f"VIOLATION property={ctx.pid} replay={rel}" + ("" if reproduced else " no-failing-input-found"))
     nobs = len([o for o in ctx.obs])
     proved = len([o for o in ctx.obs if o.verdict in PROVED])
@@ -385,8 +477,8 @@ def write_evidence(ctx, plan, wall, violations, unknowns, known_hits, proved):
     ev = {"property_id": ctx.pid, "tier": ctx.tier, "seed": ctx.seed, "level": level, "coverage": cov,
           "assumptions": ctx.assumptions + plan.get("assumptions", []), "wall_s": round(wall, 2),
           "violations": len(violations)}
-    os.makedirs(os.path.join(VERIF, "evidence"), exist_ok=True)
-    with open(os.path.join(VERIF, "evidence", f"{ctx.pid}.json"), "w") as f:
+    os.makedirs(os.path.join(OUT, "evidence"), exist_ok=True)
+    with open(os.path.join(OUT, "evidence", f"{ctx.pid}.json"), "w") as f:
         json.dump(ev, f, indent=1, default=str)
 
 
